@@ -665,7 +665,18 @@ def g_where(b):
     shape = np.broadcast_shapes(np.shape(b.val(x)), np.shape(b.it.dec(y)))
     cshape = bcast_variants(rng, shape) if rng.random() < 0.5 else shape
     cond = np.array([rng.random() < 0.5 for _ in range(int(np.prod(cshape, dtype=int)))], dtype=bool).reshape(cshape)
-    args = [enc_arr(cond), R(x), y] if rng.random() < 0.5 else [enc_arr(cond), y, R(x)]
+    c = rng.random()
+    if c < 0.6:
+        ec = enc_arr(cond)
+    elif c < 0.75:      # NumPy takes any array-like as the condition and tests its truth value
+        ec = enc_arr(cond.astype(rng.choice(["int64", "uint8", "int32"])) * rng.choice([1, 1, 2, 3]))
+    elif c < 0.85:
+        ec = enc_arr(cond.astype("float64") * rng.choice([1.0, 0.5, -2.0]))
+    elif c < 0.95 or cond.ndim == 0:
+        ec = ["l", (cond.astype(int) * rng.choice([1, 2])).tolist()] if cond.ndim == 1 else enc_arr(cond.astype("int64"))
+    else:
+        ec = bool(cond.ravel()[0]) if cond.size == 1 and rng.random() < 0.5 else enc_arr(cond)
+    args = [ec, R(x), y] if rng.random() < 0.5 else [ec, y, R(x)]
     return b.call("where", args, sp=rng.choice(["mg", "np"]))
 
 
